@@ -57,6 +57,12 @@ package goja
 //@ stable vm.r
 //@ typeinv *vm specVMWF
 
+//@ func (*vm).leaveTryFrame
+//@   props C03 C08
+//@   requires vm != nil && 0 <= l && l <= len(vm.tryStack)
+//@   ensures len(vm.tryStack) == l && samearray(vm.tryStack, old(vm.tryStack)) && sliceoff(vm.tryStack, old(vm.tryStack)) == 0 [cut-back-to-recorded-height]
+//@   assigns vm.tryStack
+
 // ---- unwinding
 
 // Marker frames (catchPos == tryPanicMarker) delimit the regions entered from Go (try, runTry, a Go
@@ -184,16 +190,32 @@ package goja
 //@   ensures len(r.jobQueue) == 0 && len(r.vm.stack) == 0 [queue-drained-stack-released]
 
 // ---- call contexts (C03)
+//@ func (*vm).saveCtx
+//@   props C03
+//@   requires vm != nil && ctx != nil
+//@   assigns *ctx
+//@ func (*vm).restoreCtx
+//@   props C03
+//@   requires vm != nil && ctx != nil
+//@   assigns vm.prg, vm.stash, vm.privEnv, vm.newTarget, vm.result, vm.pc, vm.sb, vm.args
+//@ func (*vm).pop
+//@   props C03
+//@   requires vm != nil
+//@   ensures vm.sp == old(vm.sp)-1 [one-less]
+//@   assigns vm.sp
 //@ func (*vm).pushCtx
 //@   props C03
 //@   requires vm != nil
 //@   ensures len(vm.callStack) == old(len(vm.callStack))+1 [one-more]
 //@   ensures_panic specIsStackOverflow(panicValue) && len(vm.callStack) == old(len(vm.callStack)) [overflow-pushes-nothing]
+//@   ensures_abrupt specIsStackOverflow(panicValue) && len(vm.callStack) == old(len(vm.callStack)) && len(vm.tryStack) == old(len(vm.tryStack)) [overflow-pushes-nothing]
+//@   assigns vm.callStack, elems(vm.callStack)
 
 //@ func (*vm).popCtx
 //@   props C03
 //@   requires vm != nil && len(vm.callStack) > 0
 //@   ensures len(vm.callStack) == old(len(vm.callStack))-1 [one-less]
+//@   assigns vm.callStack, elems(vm.callStack), vm.prg, vm.stash, vm.privEnv, vm.newTarget, vm.result, vm.pc, vm.sb, vm.args
 
 // Generator return(): walking the generator's own try frames from the innermost one, the iterators
 // and references opened inside a frame are closed BEFORE the frame is popped (so that an exception
@@ -224,3 +246,40 @@ package goja
 //@   requires vm != nil
 //@   ensures len(vm.tryStack) == old(len(vm.tryStack)) [marker-popped]
 //@   ensures_abrupt len(vm.tryStack) == old(len(vm.tryStack)) [marker-popped-on-panic]
+
+// halted() dereferences vm.prg unless pc is negative: when it returns false there is a program.
+//@ func (*vm).halted
+//@   props C03
+//@   requires vm != nil
+//@   ensures result == (vm.pc < 0 || vm.pc >= len(vm.prg.code)) [definition]
+//@   ensures !result ==> vm.prg != nil [running-means-a-program]
+//@   assigns nothing
+
+// One protected run of the instruction loop: whatever happens inside (normal completion, a handled
+// or unhandled exception, an uncatchable error passing through), no marker frame is removed.
+//@ func (*vm).runTryInner
+//@   props C03
+//@   requires vm != nil && vm.prg != nil
+//@   ensures @markersKept [never-pops-a-marker]
+//@   ensures_abrupt @markersKept [never-pops-a-marker]
+
+//@ func (*vm).runTry
+//@   props C03
+//@   requires vm != nil && vm.prg != nil
+//@   loop 1 invariant old(len(vm.tryStack)) < len(vm.tryStack) && vm.tryStack[old(len(vm.tryStack))].catchPos == tryPanicMarker && vm.prg != nil [own-marker-in-place]
+//@   loop 1 vars ex *Exception
+//@   ensures len(vm.tryStack) == old(len(vm.tryStack)) [marker-popped]
+//@   ensures_abrupt len(vm.tryStack) == old(len(vm.tryStack)) [marker-popped-on-panic]
+
+// A call of a script function from Go is a protected region of its own.
+//@ constructor-of Runtime (*Runtime).init
+//@ stable Object.runtime Runtime.vm
+//@ func (*baseJsFuncObject).__call
+//@   props C03
+//@   requires f != nil && f.val != nil && f.val.runtime != nil && f.val.runtime.vm != nil && f.prg != nil
+//@   loop 1 invariant true [pushing-arguments]
+//@   loop 2 vars vm *vm
+//@   loop 2 invariant vm != nil && old(len(vm.tryStack)) < len(vm.tryStack) && vm.tryStack[old(len(vm.tryStack))].catchPos == tryPanicMarker && vm.prg != nil [own-marker-in-place]
+//@   exitvars vm *vm
+//@   ensures vm != nil && len(vm.tryStack) == old(len(vm.tryStack)) [marker-popped]
+//@   ensures_abrupt vm != nil && len(vm.tryStack) == old(len(vm.tryStack)) [marker-popped-on-panic]
